@@ -33,6 +33,27 @@ fn build_full(case: &Case) -> Block {
     b.graveyard = 12;
     b.total_fees = 13;
     b.avg_total_fees = 14;
+    // every other signed numeric header field gets a distinct non-zero value, as on a chain past its
+    // first window wrap (a field the lite block drops must change the hash)
+    b.avg_fee_per_byte = 15;
+    b.avg_nolan_rebroadcast_per_block = 16;
+    b.previous_block_unpaid = 17;
+    b.avg_total_fees_new = 18;
+    b.avg_total_fees_atr = 19;
+    b.avg_payout_routing = 20;
+    b.avg_payout_mining = 21;
+    b.avg_payout_treasury = 22;
+    b.avg_payout_graveyard = 23;
+    b.avg_payout_atr = 24;
+    b.total_payout_routing = 25;
+    b.total_payout_mining = 26;
+    b.total_payout_treasury = 27;
+    b.total_payout_graveyard = 28;
+    b.total_payout_atr = 29;
+    b.total_fees_new = 30;
+    b.total_fees_atr = 31;
+    b.fee_per_byte = 32;
+    b.total_fees_cumulative = 33;
     for (i, (payer, payee, is_gt)) in case.txs.iter().enumerate() {
         let p = key(*payer);
         let mut t = Transaction::default();
